@@ -5,7 +5,8 @@
    and WritePacketData per request, every channel capacity of the request channel, and every
    schedule ([reachable] = any interleaving, cancellation possible at any moment). *)
 From stdpp Require Import gmultiset list.
-From SX Require Import Base.Net Base.NetExec Model.Pipeline Model.PipelineShape Proofs.PipelineProofs Proofs.PipelineOrder.
+From SX Require Import Base.Net Base.NetExec Model.Pipeline Model.PipelineShape Proofs.PipelineProofs Proofs.PipelineOrder
+                       Proofs.PipelineWire.
 
 (* nothing lost, nothing duplicated, in every reachable state that was not cancelled: request ids
    held by goroutines + sitting in channel buffers + handed to the wire + logged as errors
@@ -46,6 +47,15 @@ Theorem C07_terminal : forall N fill_ok write_ok reqs,
   (~ wirefate fill_ok write_ok reqs id -> multiplicity id (wire_of n) = 0 /\ multiplicity id (errs_of n) = 1).
 Proof. exact pipeline_terminal. Qed.
 
+(* the same as one statement about the whole wire log: the ids of the frames handed to the wire, in
+   write order, are a permutation of the ids of the requests that carry no error and whose Fill and
+   WritePacketData succeed ([due]) -- none missing, none extra, none repeated *)
+Theorem C07_wire_exact : forall N fill_ok write_ok reqs,
+  NoDup (fst <$> reqs) -> forall cap n,
+  reachable (beh N fill_ok write_ok) (init N cap reqs) n -> cancelled n = false -> quiescent n ->
+  wire_list n ≡ₚ due fill_ok write_ok reqs.
+Proof. exact pipeline_wire_exact. Qed.
+
 (* the goroutine structure of the current sources (Gen/Skeletons.v, regenerated on every run) is the
    one the behaviours of Model/Pipeline.v were written against (Model/PipelineShape.v) *)
 Theorem C07_shape : shape_ok = true.
@@ -75,4 +85,5 @@ Print Assumptions C07_no_panic.
 Print Assumptions C07_fates.
 Print Assumptions C07_done_after_last_write.
 Print Assumptions C07_terminal.
+Print Assumptions C07_wire_exact.
 Print Assumptions C07_shape.
